@@ -7,10 +7,11 @@ from .report import VERIF
 LEVEL = {"C19": "exploration", "C20": "exploration"}
 
 EFF_FAMILIES = {
-    "C01": ["PROV", "FRAME-view", "POP-own"],
+    "C01": ["PROV", "FRAME-view", "POP-own", "FRAME-kernel"],
+    "C14": ["FRAME-kernel"],
     "C02": ["PROV", "FRAME-view", "CALLS"],
     "C04": ["FRAME-book"],
-    "C05": ["CALLS", "PROV"],
+    "C05": ["CALLS", "PROV", "FRAME-kernel"],
     "C07": ["READS-rng"],
     "C08": ["INIT", "FRAME-book"],
     "C09": ["FRAME-cfg"],
@@ -115,9 +116,11 @@ def _bnd_component(R, pid, tier, seed):
             continue
         sc = c.get("scenario")
         relevant = {
-            "C07": sc in ("repro", "repro0"), "C08": sc in ("reuse", "reuse2"), "C18": sc in ("setcfg", "setcfg2"),
+            "C07": sc in ("repro", "repro0"), "C08": sc in ("reuse", "reuse2", "reuse3", "reuse_dim"), "C18": sc in ("setcfg", "setcfg2"),
+            "C01": sc in ("single", "reuse3", "reuse_dim"), "C02": sc in ("single", "reuse3", "reuse_dim"),
+            "C03": sc in ("single", "reuse3", "reuse_dim"),
             "C12": sc in ("duality", "duality_reuse") or (sc == "single" and c.get("debug")),
-            "C09": sc in ("single", "rejected"), "C06": sc in ("single", "rejected"),
+            "C09": sc in ("single", "rejected"), "C06": sc in ("single", "rejected", "reuse_dim", "reuse2", "reuse3"),
             "C10": sc in ("single", "setcfg2"),
             "C11": c.get("mode") in ("thread", "process"),
         }.get(pid, sc == "single")
@@ -140,8 +143,11 @@ def _bnd_component(R, pid, tier, seed):
             if r.get("exc"):
                 e = r["exc"]
                 cont = c["kind"] in bnd.CONT
-                if cont:
+                if cont and sc in ("single", "rejected"):
                     msgs[f"BND.C06.{c['opt']}.{e['type']}.{e['where']}"] = f"{e['type']} in {e['where']}: {e['msg']}"
+                elif cont and not _known_exc(exp, c["opt"], e, c["kind"]):
+                    msgs[f"BND.C06.{c['opt']}.{sc}.{e['type']}"] = (f"a valid optimize() call on an instance used before ({sc}) fails: "
+                                                                     f"{e['type']} in {e['where']}: {e['msg']}")
         elif pid == "C11":
             for k in ("C01", "C02", "C03", "C05", "C10"):
                 if k in r.get("monitors", {}):
